@@ -108,7 +108,7 @@ Proof. repeat split; vm_compute; reflexivity. Qed.
 
 (* get_admid on ex1 read with a two-route model (depot = compartment 1 / admid 1, central = 2 / admid 2) *)
 Example admid_nonvacuous :
-  let mi := mkMinfo [(1, 1, false); (2, 2, true)] in
+  let mi := mkMinfo [(1, 1, false); (2, 2, true)] 2 in
   has_admid (ds_sch ex3) = false /\ guard_evid ex3 = true /\ forallb (fun v => negb (v =? 4)) (evid_walk ex3) = true
   /\ admid_ref mi ex3 = Ok [1; 1; 1; 1; 1; 1]
   /\ option_map (map snd) (match admid_impl mi ex3 with Ok l => Some l | Err _ => None end) = Some [1; 1; 1; 1; 1; 1].
